@@ -476,6 +476,8 @@ def cli_partition_case(args):
                 elif w[0] == "searchc":
                     o = None                      # best-only: the CLI prints one row; not compared here
                 elif w[0] == "pfallc":
+                    o = None                      # Index.prefetch rows: the command prints prefetch_database's (`xpfc`)
+                elif w[0] == "xpfc":
                     dbs = [paths[int(x)] for x in w[3:] if int(x) in paths]
                     out = os.path.join(d, "p.csv")
                     if os.path.exists(out):
@@ -485,7 +487,7 @@ def cli_partition_case(args):
                         a.append("--linear")
                     rc, so, se = run_cli(pkg, a, d)
                     if rc != 0 and "unattainable" in se:
-                        o = "err ValueError"
+                        o = "x err ValueError"
                     elif rc != 0 and "assert result.pass_threshold" in se:
                         # search.prefetch_database re-checks every row of Index.prefetch in base pairs; for a query
                         # finer than the database Index.prefetch admits sketches below threshold_bp (D6) and the
@@ -497,13 +499,13 @@ def cli_partition_case(args):
                         asserts.append(("C08:cli:prefetch-AssertionError:query-finer-than-db:threshold_bp>0" if d6
                                         else "C08:cli:prefetch-AssertionError",
                                         f"`sourmash prefetch --threshold-bp {w[2]}` died on `assert result.pass_threshold` "
-                                        f"(query scaled {qsc}, database scaled {dsc})", {"case": case, "args": a}))
-                        o = "err AssertionError"
+                                        f"(query scaled {qsc}, database scaled {dsc}); regression of finding C08.5", {"case": case, "args": a}))
+                        o = None
                     elif rc != 0:
-                        o = "err cli-exit-%d %s" % (rc, se[-200:].replace("\n", " | "))
+                        o = "x err cli-exit-%d %s" % (rc, se[-200:].replace("\n", " | "))
                     else:
-                        o = _canon([(md5full.get(r["match_md5"], int(r["match_md5"], 16)), float(r["f_match_query"]))
-                                    for r in read_csv(out)])
+                        o = "x " + _canon([(md5full.get(r["match_md5"], int(r["match_md5"], 16)), float(r["f_match_query"]))
+                                           for r in read_csv(out)])
                 elif w[0] == "xgd":
                     dbs = [paths[int(x)] for x in w[5:] if int(x) in paths]
                     out = os.path.join(d, "g.csv")
@@ -548,14 +550,13 @@ def cli_partition_case(args):
                 bad.append(("C08:cli:command-failed", f"`{l[:80]}`: {o}", {"case": case}))
         if impl is not None:
             for l, o, io in zip(case, obs, impl):
-                if o is None or not l.startswith(("searchc", "pfallc")):
+                if o is None or not l.startswith(("searchc", "xpfc")):
                     continue
                 io = io[:-5] if io.endswith(" L=ok") else io
-                if l.startswith("pfallc") and o.startswith("ok") and io.startswith("ok"):
-                    # `prefetch` prints the de-biased containment (f_match_query), the API row the plain quotient:
-                    # compare which sketches are reported
-                    o = "ok " + ",".join(sorted(x.split(":")[0] for x in o[3:].split(",") if x))
-                    io = "ok " + ",".join(sorted(x.split(":")[0] for x in io[3:].split(",") if x))
+                if l.startswith("xpfc"):
+                    # the reference for `sourmash prefetch` is search.prefetch_database run in-process on the same
+                    # collections (rows of Index.prefetch that pass PrefetchResult.pass_threshold, f_match_query)
+                    o, io = o[2:], io[2:]
                 if o != io and not (o.startswith("err") or io.startswith("err")):
                     bad.append(("C08:cli:rows-differ-from-api", f"`{l[:60]}`: cli={o[:160]} api={io[:160]}",
                                 {"case": case, "kinds": {str(a): b for a, b in kinds.items()}}))
